@@ -16,7 +16,7 @@ CONSTANTS
   Ports = {0, 1024, 5548, 5549, 5551, 5552, 5553, 5554, 5555, 5556, 5557, 5558, 5559, 5560, 64998, 65000}
   IpcNames = {"pipe", "q"}
   Extras = {"", "log", "misc", "neg"}
-  Defects = {"assign_empty_ignored", "ipc_name_clash"}
+  Defects = {"assign_empty_ignored"}
 INIT Init
 NEXT SampleNext
 INVARIANT TypeOK
